@@ -16,7 +16,7 @@ m = {
   {"name": "vcheck", "path": "harness", "serves_properties": ["C%02d" % i for i in range(1, 20)],
    "kind_free_text": "Rust binary (proptest 1.11 TestRunner from a binary, 16 lanes, fixed seeds, shrinking): tape-driven sprite/plan/mutation generators built by construction, model+encoder with field map, explicit oracles per property, isolated worker processes with a counting/denying allocator, C++ Aseprite blend reference linked via cc"},
   {"name": "libfuzzer", "path": "harness/fuzz", "serves_properties": ["C01", "C02", "C04", "C05", "C06", "C07", "C08", "C09", "C10", "C11", "C15", "C18", "C19"],
-   "kind_free_text": "cargo-fuzz targets used only by thorough tiers (coverage-guided, oracle inside the target): bytes_load_use and structured_load_use (C04/C05: load + exercise), tape_props (the tape-driven semantic properties: input = generator tape, the property's own generator and oracle run in the target; artifacts are re-judged and shrunk by vcheck)"}
+   "kind_free_text": "cargo-fuzz targets used only by thorough tiers (coverage-guided, oracle inside the target): bytes_load_use and structured_load_use (C04/C05: load + exercise; C04 also runs bytes_load_use built with AddressSanitizer), tape_props (the tape-driven semantic properties: input = generator tape, the property's own generator and oracle run in the target; artifacts are re-judged and shrunk by vcheck)"}
  ],
  "checks": [],
  "not_applicable": [],
